@@ -363,6 +363,7 @@ def run(ctx):
     ctx.cov["max_input_bytes"] = max(len(r["in"]) // 2 for r in rows)
     ctx.cov["channel_capacities"] = [0, 1, 2, 64]
     ctx.cov["generator"] = trailer
+    ctx.cov["repository_test_strings"] = sum(1 for r in rows if r["g"] == "tests")
     ctx.cov["exhaustive"] = ("all strings over the 12 symbols a 1 SP \" \\ < > / , ; ( ] up to length %s and up to length %s after "
                              "each of 12 context prefixes: model evaluated in Coq on every string, compared with lexer.New through a "
                              "61-bit polynomial checksum of the (kind,text) sequences (bisected to a concrete string on mismatch); "
